@@ -2,7 +2,7 @@
 # usage: try_seed2.sh <patch.diff> <tier> <prop> [<prop>...]   (env: WORLDS=n overrides the world count)
 # Like try_seed.sh but leaves /repo alone: the patch is applied to a scratch worktree and the
 # harness is built against it through an alternate go.mod, so other work on /repo can go on.
-patch="$1"; tier="$2"; shift 2
+patch="$(readlink -f "$1")"; tier="$2"; shift 2
 export GOFLAGS=-mod=mod GOPROXY=off; unset GOSUMDB GOTOOLCHAIN
 wt=/tmp/mutrepo-$$
 git -C /repo worktree add -q --detach "$wt" HEAD || exit 2
